@@ -179,10 +179,10 @@ func (in *Interp) cell(st *State, li *labelInfo, name string) (string, error) {
 	}
 	ptr, ok := st.Vars[full]
 	if !ok || ptr.K != 's' {
-		return "", fmt.Errorf("ref parameter %s holds %v, not a variable identity", full, ptr)
+		return "", &evalErr{fmt.Sprintf("ref parameter %s holds %v, not a variable identity", full, ptr)}
 	}
 	if _, ok := st.Vars[ptr.S]; !ok {
-		return "", fmt.Errorf("ref parameter %s refers to unknown variable %q", full, ptr.S)
+		return "", &evalErr{fmt.Sprintf("ref parameter %s refers to unknown variable %q", full, ptr.S)}
 	}
 	return ptr.S, nil
 }
